@@ -13,6 +13,7 @@ namespace
     constexpr long ZERO = 1L << 20;
     long val_a(long k) { return 1L << (k - 1); }        // keys 1..9
     long val_b(long k) { return 1L << (k - 1 + 10); }   // updated variant (disjoint bit)
+    long val_u(long k) { return (1L << 21) + (1L << (32 + k % 24)); }   // update of one of the 70 bulk keys: its own high bit shows whether the new operand reached the result
 
     struct Sample { long t; bool valid; bool modified; long value; };
     struct Run { std::vector<std::string> script; int cycles{0}; std::vector<Sample> samples; };
@@ -25,6 +26,7 @@ namespace
         else if (op[0] == 'e') (void)out.erase(Int{std::stol(op.substr(1))});
         else if (op[0] == 'B') { for (long k = 4; k <= 9; ++k) out.set(Int{k}, Int{val_a(k)}); }
         else if (op[0] == 'H') { for (long k = 21; k <= 90; ++k) out.set(Int{k}, Int{1L << 21}); }   // 70 equal addends above the zero bit: sum shows the count
+        else if (op[0] == 'u') { const long k = std::stol(op.substr(1)); out.set(Int{k}, Int{val_u(k)}); }
         else if (op[0] == 'c') out.clear();
     }
     struct DictWriter
@@ -122,6 +124,7 @@ namespace
                         else if (op[0] == 'e') { if (live.erase(std::stol(op.substr(1)))) structural = true; }
                         else if (op[0] == 'B') { for (long k = 4; k <= 9; ++k) live[k] = val_a(k); structural = true; }
                         else if (op[0] == 'H') { for (long k = 21; k <= 90; ++k) live[k] = 1L << 21; structural = true; }
+                        else if (op[0] == 'u') { const long k = std::stol(op.substr(1)); if (live.count(k)) update = true; else structural = true; live[k] = val_u(k); }
                         else if (op[0] == 'c') { if (!live.empty()) structural = true; live.clear(); }
                     }
                     else { const long i = op[1] - '0'; live[i] = op.back() == 'a' ? val_a(i + 1) : val_b(i + 1); }
@@ -188,6 +191,8 @@ void verif_enumerate(verif::Ctx &ctx)
         {{"do-", "doz"}, {"s1a", "s2a", "s3a", "e1", "e2", "e3", "s2b", "c"}, 3, 2},   // long lists: cancellations inside one cycle
         {{"lo-", "loz", "ln-", "lgz"}, {"s0a", "s1a", "s2a", "s3a", "s0b", "s2b"}, 2, 3},  // fixed TSL<TS<Int>,4>: unset slots are not live
     };
+    // more than 64 live elements (70 bulk keys): several operands at different depths of the tree change in one cycle
+    spaces.push_back({{"do-", "dnz"}, {"H", "u21", "u55", "u90", "e56"}, 2, 3});
     if (th)
     {
         spaces.push_back({{"dn-", "dgz"}, dict_ops, 2, 3});
